@@ -6,17 +6,31 @@
    and value, and the same created/updated/expiry metadata as before the close. This includes
    zero-like values such as 0, false, the empty string and empty byte arrays."
 
-  Statement: for every history on a fresh persistent swamp, the reference view (`Model.abs`:
-  existence, typed value, metadata of every key — what Get/GetAll return) after `closeStep`
-  (flush of the write buffer through the storage encoding, instance dropped, next request
-  reloads) equals the view before.
+  Statement (`Holds`): for EVERY persistent kind (write interval 0 = `p0`, write interval > 0 = `p1`)
+  and EVERY multi-session history — requests interleaved with closes (idle eviction, shutdown;
+  the next request reloads the file) — the reference view (`Model.abs`: existence, typed value,
+  metadata of every key, what Get/GetAll return) after one more `closeStep` (flush of the write
+  buffer through the storage encoding, instance dropped) equals the view before it.
 
-  Proved: the "every mutation marks dirty" invariant (`DOK`, for ANY facts) gives `close_view`:
+  Keys: the model stores a record under any key.  The file format holds non-empty keys of at
+  most 65535 bytes; the statements are to be read for such keys.  (For the others the code
+  acknowledges the write and its writer refuses the entry — finding
+  `C05-unstorable-key-acknowledged`, reproduced by the correspondence driver, not by this model.)
+
+  Proved about `Holds`:
+    * `not_holds_gob`        — with the gob encoding a typed zero comes back as "no value";
+    * `not_holds_incfail`    — with `incFailClean = false` a reloaded record whose conditional
+                               Increment failed shows metadata that the next close loses;
+    * `not_holds_resurrect`  — for ANY facts: delete, re-create and delete a key of the file within
+                               one session, close: the key is back (the model's `deleteRec` drops
+                               the queued delete of an object without a file pointer, as the code does).
+  Proved in the other direction, for the single-session fragment on `p1` (`HoldsSingle`, implied by
+  `Holds`): the "every mutation marks dirty" invariant (`DOK`, for ANY facts) gives `close_view`:
   the reloaded view is every record passed once through `LoadFromByte ∘ ConvertToByte`; with a
-  type-tagged encoding that is the identity, with gob it is the identity exactly on values that
-  are not zero-like (`persistRecord_id_iff`).  Scope of the lifted theorem: write interval > 0
-  (`Kind.p1`, the writer runs at close); the write-inside-Save path (`p0`) and multi-session
-  histories are covered by the correspondence run only (DESIGN §8 C05, partial by construction).
+  type-tagged encoding that is the identity (`single_typeTagged`), with gob exactly on values that are
+  not zero-like (`persistRecord_id_iff`, `C05_partial`).  The positive direction over several
+  sessions and over `p0` is exercised by the correspondence run only — `classify` never answers
+  `holds` (the resurrect mechanism is not governed by an extracted fact yet).
 -/
 import Hv.Data.Persist
 import Hv.Props.C06
@@ -25,11 +39,41 @@ namespace Hv.C05
 open Hv.Data
 open Hv.C06 (runM Hist init run_sim inv_init)
 
-/-- full-strength statement (single session on a fresh persistent swamp, then close + reload) -/
+/-- an event of a multi-session history: a request, or a close (idle eviction / shutdown; the
+    next request reloads the swamp from its file) -/
+inductive Ev where
+  | req (now : Int) (r : Req)
+  | close
+  deriving Repr
+
+def runE (cfg : Cfg) (ar : Arith) : State → List Ev → State
+  | s, [] => s
+  | s, .req now r :: rest => runE cfg ar (Model.step cfg ar now s r).s rest
+  | s, .close :: rest => runE cfg ar (Model.closeStep cfg s).1 rest
+
+/-- **C05**, full strength: any persistent kind, any number of sessions. -/
 def Holds (cfg : Cfg) : Prop :=
+  ∀ (ar : Arith) (kind : Kind), kind ≠ .mem → ∀ (h : List Ev),
+    (runE cfg ar (init kind) h).dead = false →
+    Model.abs (Model.closeStep cfg (runE cfg ar (init kind) h)).1 = Model.abs (runE cfg ar (init kind) h)
+
+/-- the single-session fragment on a buffered swamp -/
+def HoldsSingle (cfg : Cfg) : Prop :=
   ∀ (ar : Arith) (h : Hist),
     (runM cfg ar (init .p1) h).2.1.dead = false →
     Model.abs (Model.closeStep cfg (runM cfg ar (init .p1) h).2.1).1 = Model.abs (runM cfg ar (init .p1) h).2.1
+
+theorem runE_req (cfg : Cfg) (ar : Arith) (h : Hist) : ∀ s,
+    runE cfg ar s (h.map fun p => Ev.req p.1 p.2) = (runM cfg ar s h).2.1 := by
+  induction h with
+  | nil => intro s; rfl
+  | cons p rest ih => intro s; obtain ⟨now, r⟩ := p; simp only [List.map_cons, runE, runM]; exact ih _
+
+theorem single_of_holds (cfg : Cfg) (hh : Holds cfg) : HoldsSingle cfg := by
+  intro ar h hd
+  have := hh ar .p1 (by decide) (h.map fun p => Ev.req p.1 p.2)
+  rw [runE_req] at this
+  exact this hd
 
 theorem sok_init : SOK (init .p1) := ⟨rfl, rfl, fun i hi => by cases hi⟩
 
@@ -66,7 +110,7 @@ theorem mapV_congr {α β : Type} (f g : α → β) (l : List (String × α)) (h
     exact ih (fun q hq => h q (List.mem_cons_of_mem _ hq))
 
 /-- **C05 for a type-tagged record encoding** — whatever the other facts are. -/
-theorem holds_typeTagged (cfg : Cfg) (he : cfg.encoding = .typeTagged) : Holds cfg := by
+theorem single_typeTagged (cfg : Cfg) (he : cfg.encoding = .typeTagged) : HoldsSingle cfg := by
   intro ar h hd
   rw [reload_view cfg ar h hd, he]
   cases hl : (runM cfg ar (init .p1) h).2.1.live with
@@ -112,7 +156,7 @@ def hZero : Hist := [(0, .set true true [{ key := "k", val := .int .i32 0 }])]
 
 theorem not_holds_gob (cfg : Cfg) (he : cfg.encoding = .gobOmitZero) : ¬ Holds cfg := by
   intro hh
-  have h1 := hh Hv.C06.ar0 hZero
+  have h1 := single_of_holds cfg hh Hv.C06.ar0 hZero
   cases hr : cfg.resetsFlags <;> cases hn : cfg.noEmptyLive <;> cases hi : cfg.saveReleasesImmediate <;>
     simp [hZero, runM, init, Model.step, Model.stepCore, Model.ghost, Model.exists_, Model.abs, AL.mapV, Model.summon,
       Model.setLoop, Model.setOne, AL.has, AL.find, Model.createTreasure, Model.applyItem, normVal, setValue,
@@ -132,6 +176,52 @@ theorem current_zero_witness :
     without zero-like values -/
 example : (runM Hv.C06.current Hv.C06.ar0 (init .p1)
     [(0, .set true true [Hv.C06.k5]), (0, .inc (.int .i64) "k" 1 none none none)]).2.2 = [] := by decide
+
+/-! ### counterexamples over several sessions -/
+
+def kA : Item := { key := "a", val := .int .i64 5 }
+def kB : Item := { key := "b", val := .int .i64 6 }
+
+/-- delete, re-create and delete a key that is in the file, within one session -/
+def hRes : List Ev :=
+  [.req 0 (.set true true [kA, kB]), .close, .req 0 (.del ["a"]), .req 0 (.inc (.int .i64) "a" 1 none none none),
+   .req 0 (.del ["a"])]
+
+/-- a conditional Increment fails on a reloaded record and carries expiry metadata -/
+def hFail : List Ev :=
+  [.req 0 (.set true true [kA]), .close,
+   .req 0 (.inc (.int .i64) "a" 1 (some (.eq, 77)) none (some { exp := some 99 }))]
+
+example : (Model.abs (runE Hv.C06.current Hv.C06.ar0 (init .p1) hRes)).map (·.1) = ["b"] ∧
+    (Model.abs (Model.closeStep Hv.C06.current (runE Hv.C06.current Hv.C06.ar0 (init .p1) hRes)).1).map (·.1) = ["a", "b"] := by decide
+example : (Model.abs (runE Hv.C06.current Hv.C06.ar0 (init .p1) hFail)).map (·.2.m.exp) = [99] ∧
+    (Model.abs (Model.closeStep Hv.C06.current (runE Hv.C06.current Hv.C06.ar0 (init .p1) hFail)).1).map (·.2.m.exp) = [0] := by decide
+
+/-- evaluation of a closed multi-session history with symbolic facts -/
+macro "c05_eval" "[" hs:Lean.Parser.Tactic.simpLemma,* "]" "at" h:ident : tactic => `(tactic|
+  simp [$hs,*, runE, init, Model.step, Model.stepCore, Model.ghost, Model.exists_, Model.abs, AL.mapV,
+    Model.summon, Model.setLoop, Model.setOne, AL.has, AL.find,
+    Model.createTreasure, Model.applyItem, normVal, dedupVal, setValue, setScalar, setVoid,
+    Content.fresh, Content.vis, Content.ofVal, Model.validTs, Model.itemSupplied, Model.metaFlag, itemMeta,
+    Model.valueTags, Model.tsTags, Model.save, AL.insert, AL.erase, Model.settleAfterTouch,
+    Model.settleAfterDelete, Model.withLive, Model.destroy, Cfg.setters, MRec.abs,
+    Model.deleteRec, Model.delLoop, Model.idxRemove, Model.idxAdd,
+    Val.scalar, Val.isSlice, Val.sliceD, Model.incStep, Model.incCore, Model.incStart, Model.incApply,
+    Model.park, Model.applyIncMeta, numIsZero, numZero, numVal, numOf, numAdd, numCmp, numWrap, IntTy.bits, IntTy.signed, condHolds, metaResp, loadRec,
+    Model.closeStep, Model.closeDisk, Model.flushDisk, Model.flushStep, Model.addWaiting, persistRec, persistContent,
+    Val.zeroLike, IntTy.wrap, kA, kB, hRes, hFail] at $h:ident)
+
+theorem not_holds_resurrect (cfg : Cfg) : ¬ Holds cfg := by
+  intro hh
+  have h1 := hh Hv.C06.ar0 .p1 (by decide) hRes
+  cases hr : cfg.resetsFlags <;> cases hn : cfg.noEmptyLive <;> cases he : cfg.encoding <;>
+    c05_eval [he, hr, hn] at h1
+
+theorem not_holds_incfail (cfg : Cfg) (hc : cfg.incFailClean = false) : ¬ Holds cfg := by
+  intro hh
+  have h1 := hh Hv.C06.ar0 .p1 (by decide) hFail
+  cases hr : cfg.resetsFlags <;> cases hn : cfg.noEmptyLive <;> cases he : cfg.encoding <;>
+    c05_eval [he, hr, hn, hc] at h1
 
 /-! ### decision over the extracted facts -/
 
@@ -154,28 +244,52 @@ structure Facts where
   arekAllFalse : Tri
   countMissingOk : Tri
   setErrSingle : Tri
+  fltCondDirect : Tri
   saveReleasesImmediate : Tri
+  wireExpNe0 : Tri
   deriving DecidableEq, Repr
 
 def kvFacts (f : Facts) : Hv.C06.Facts :=
   ⟨f.resetsFlags, f.metaCompare, f.tsPositive, f.voidClears, f.pushChecksType, f.setSliceReplaces,
    f.u32delReleases, f.u32delChecksType, f.incFailClean, f.noEmptyLive, f.arekAllFalse, f.countMissingOk,
-   f.setErrSingle, f.saveReleasesImmediate⟩
+   f.setErrSingle, f.fltCondDirect, f.saveReleasesImmediate, f.wireExpNe0⟩
 
 def cfgOf (f : Facts) : Cfg :=
   { Hv.C06.cfgOf (kvFacts f) with encoding := match f.encoding with | .typeTagged => .typeTagged | _ => .gobOmitZero }
 
+/-- the findings the facts imply; the last one is unconditional: the delete path of the model
+    (`Model.deleteRec`) drops the queued delete of an object without a file pointer, as the code
+    does, and no extracted fact governs it yet -/
+def findings (f : Facts) : List String :=
+  (if f.encoding = .gobOmitZero then ["C05-zero-like-reloads-void"] else []) ++
+  (if f.incFailClean = .no then ["C05-failed-increment-leaves-trace"] else []) ++
+  ["C05-deleted-key-resurrected"]
+
 def classify (f : Facts) : Verdict :=
   match f.encoding with
   | .unknown => .undetermined "the record encoding of ConvertToByte / LoadFromByte was not recognised"
-  | .typeTagged => .holds
-  | .gobOmitZero => .violated ["C05-zero-like-reloads-void"]
+  | _ =>
+    if f.incFailClean = .unknown then .undetermined "the failure path of the conditional Increment was not recognised"
+    else .violated (findings f)
 
 theorem classify_sound (f : Facts) : (classify f).Sound (Holds (cfgOf f)) (HoldsPartial (cfgOf f)) := by
   unfold classify
   cases he : f.encoding with
   | unknown => trivial
-  | typeTagged => exact holds_typeTagged _ (by simp [cfgOf, he])
-  | gobOmitZero => exact ⟨not_holds_gob _ (by simp [cfgOf, he]), C05_partial _⟩
+  | typeTagged =>
+    by_cases hu : f.incFailClean = .unknown
+    · simp only [hu, if_true]; trivial
+    · simp only [hu, if_false]; exact ⟨not_holds_resurrect _, C05_partial _⟩
+  | gobOmitZero =>
+    by_cases hu : f.incFailClean = .unknown
+    · simp only [hu, if_true]; trivial
+    · simp only [hu, if_false]; exact ⟨not_holds_resurrect _, C05_partial _⟩
+
+/-- each listed finding is backed by its own counterexample for the facts that list it -/
+theorem findings_backed (f : Facts) :
+    (f.encoding = .gobOmitZero → ¬ Holds (cfgOf f)) ∧
+    (f.incFailClean = .no → ¬ Holds (cfgOf f)) ∧ ¬ Holds (cfgOf f) := by
+  refine ⟨fun he => not_holds_gob _ (by simp [cfgOf, he]), fun hc => not_holds_incfail _ ?_, not_holds_resurrect _⟩
+  simp [cfgOf, Hv.C06.cfgOf, kvFacts, hc, Tri.isYes]
 
 end Hv.C05
